@@ -16,7 +16,8 @@ EXPLANATION = (
     "and cannot leave the function without going round an enclosing retry loop that is unbounded (while on a flag) or admits >= 5 "
     "attempts (literal range bound). R2: inside the retry, whenever the training inputs/targets handed to fit are re-bound through "
     "a row mask, the noise vector handed to the same fit is re-bound through the same mask (parallel-array consistency). R3: the "
-    "posterior update after a refit sits under a LinAlgError handler that restores the previous hyperparameters. Decides the "
+    "posterior update after a refit sits under a LinAlgError handler that restores the previous hyperparameters. R4 sibling fit calls agree on the shape of the fallback start. R5 the stored vector fit() falls back to when its s2 argument is None is thinned with X and Y, unless every caller passes <gp>.s2 of the surrogate the receiver is copied from. Decides the "
+    "exception-handling structureDecides the "
     "exception-handling structure on all paths; whether the retried fit eventually succeeds is numeric and not decided."
 )
 
